@@ -103,7 +103,7 @@ def hollow_base(h0: int, target: bytes, n_outputs: int = 12, value_each: int = 5
     th = T.hash()
     cs = CoinState(
         block_by_hash=immutables.Map({th: T}),
-        unspent_transaction_outs_by_hash=immutables.Map({th: uto_apply_block(immutables.Map(), T)}),
+        unspent_transaction_outs_by_hash=immutables.Map({th: _apply_to_empty(T)}),
         block_by_height_by_hash=immutables.Map({th: by_height}),
         heads=immutables.Map({th: T}),
         current_chain_hash=th)
@@ -136,6 +136,17 @@ def two_root_base(h0: int, target: bytes, start_height: int, start_ts_1: int, st
         heads=cs1.heads.set(t2, T2),
         current_chain_hash=t1)
     return cs, T1, T2
+
+
+class BaseNotApplicable(Exception):
+    """The code under test raised while applying a valid, reward-only block (several outputs) to an empty ledger."""
+
+
+def _apply_to_empty(T):
+    try:
+        return uto_apply_block(immutables.Map(), T)
+    except Exception as e:
+        raise BaseNotApplicable('%s: %s' % (type(e).__name__, e))
 
 
 class HollowMap:
@@ -187,7 +198,7 @@ def hollow_base_far(h0: int, target: bytes, n_outputs: int = 12, value_each: int
     th = T.hash()
     cs = CoinState(
         block_by_hash=immutables.Map({th: T}),
-        unspent_transaction_outs_by_hash=immutables.Map({th: uto_apply_block(immutables.Map(), T)}),
+        unspent_transaction_outs_by_hash=immutables.Map({th: _apply_to_empty(T)}),
         block_by_height_by_hash=immutables.Map({th: HollowMap(h0, filler, immutables.Map({**(over or {}), h0: T}))}),
         heads=immutables.Map({th: T}),
         current_chain_hash=th)
